@@ -65,6 +65,8 @@ func symbolNames(c config) []string {
 			out[i] = o.name
 		}
 		return out
+	case "jbfull":
+		return []string{"Clear(true)", "Clear(false)"}
 	}
 	return icptSymNames
 }
@@ -83,6 +85,8 @@ func exec(c config, hist []int) hk.Step {
 		return execJB(c, hist)
 	case "pq":
 		return execPQ(c, hist)
+	case "jbfull":
+		return execFull(c, hist)
 	}
 	return execIcpt(c, hist)
 }
@@ -189,6 +193,8 @@ func configs(tier string) []config {
 		}
 		shard(config{Kind: "jb", Min: mp[0], Pre: mp[1], Seqs: seqs3, Peeks: false, Depth: d})
 	}
+	// the whole 16-bit sequence space buffered, then Clear
+	whole(config{Kind: "jbfull", Depth: 1})
 	// PriorityQueue
 	if thorough {
 		shard(config{Kind: "pq", Seqs: seqs6, Peeks: true, Depth: 7})
